@@ -17,6 +17,20 @@ Write WHide and cleared by Write WShow, which is all C18 uses of it.)  Anything 
 the translator write a stub WITHOUT the skeleton, so that only C18's proofs stop building;
 the exit status stays 0 because every check runs every translator.
 
+Also (second, independent part): the CALL skeletons of UrwidImageScreen._start / _stop / clear
+-> `sprog`s of coq/model/ScreenCalls.v ([sk_start], [sk_stop], [sk_clear]) in which
+
+    super().<the method itself>(...)  ->  PCall CBase       (urwid's method: switches the screen buffers)
+    self.clear_images()               ->  PCall CClearAll   (no argument at all: every image is deleted)
+    any other call                    ->  PCall CCall
+    if <test>: A else: B              ->  calls of <test>, then PIf A B
+    return <expr>                     ->  calls of <expr>, then PRet
+    <target> = <expr>                 ->  calls of <expr>
+
+so that "images are cleared on start, stop and clear" is checked on every path of the source,
+whatever the conditions (proofs/ScreenSessionSrc.v).  A method outside this subset is left out of
+the generated file, so that only that proof stops building.
+
 Separate from tx_skel.py (shared by C07 C10 C11 C13) on purpose: nothing there changes."""
 from __future__ import annotations
 
@@ -123,6 +137,113 @@ def block(stmts) -> str:
     return seq(out)
 
 
+# ------------------------------------------------------------------ _start / _stop / clear
+
+
+def is_super_call(c: ast.Call) -> str | None:
+    """`super().name(...)` -> name"""
+    f = c.func
+    if (isinstance(f, ast.Attribute) and isinstance(f.value, ast.Call) and isinstance(f.value.func, ast.Name)
+            and f.value.func.id == "super" and not f.value.args and not f.value.keywords):
+        return f.attr
+    return None
+
+
+def scalls_in(e, own: str) -> list[str]:
+    """the calls of an expression, in evaluation order, as scall constructors"""
+    out = []
+    if isinstance(e, (ast.Await, ast.Yield, ast.YieldFrom, ast.NamedExpr, ast.Lambda, ast.IfExp, ast.BoolOp,
+                      ast.ListComp, ast.SetComp, ast.DictComp, ast.GeneratorExp)):
+        if any(isinstance(n, ast.Call) for n in ast.walk(e)):
+            raise Unsupported(f"{where(e)}: a call inside a {type(e).__name__} (conditional evaluation)")
+        return out
+    if isinstance(e, ast.Call):
+        sup = is_super_call(e)
+        if sup is not None:
+            for a in list(e.args) + [k.value for k in e.keywords]:
+                out += scalls_in(a, own)
+            if sup != own:
+                raise Unsupported(f"{where(e)}: super().{sup}() inside {own}()")
+            out.append("CBase")
+            return out
+        if isinstance(e.func, ast.Name) and e.func.id == "super":
+            raise Unsupported(f"{where(e)}: super() used other than as super().{own}(...)")
+        out += scalls_in(e.func, own)
+        for a in list(e.args) + [k.value for k in e.keywords]:
+            out += scalls_in(a, own)
+        if ast.unparse(e.func) == "self.clear_images":
+            if e.args or e.keywords:
+                raise Unsupported(f"{where(e)}: self.clear_images() with arguments inside {own}()")
+            out.append("CClearAll")
+        else:
+            out.append("CCall")
+        return out
+    for n in ast.iter_child_nodes(e):
+        out += scalls_in(n, own)
+    return out
+
+
+def sblock(stmts, own: str) -> str:
+    out = []
+    for s in stmts:
+        if isinstance(s, ast.Expr):
+            if isinstance(s.value, ast.Constant):
+                continue
+            out += [f"PCall {c}" for c in scalls_in(s.value, own)]
+        elif isinstance(s, (ast.Assign, ast.AnnAssign, ast.AugAssign)):
+            targets = s.targets if isinstance(s, ast.Assign) else [s.target]
+            for t in targets:
+                if has_call(t):
+                    raise Unsupported(f"{where(s)}: call in an assignment target")
+                if "clear_images" in ast.unparse(t):
+                    raise Unsupported(f"{where(s)}: clear_images is rebound")
+            if s.value is not None:
+                out += [f"PCall {c}" for c in scalls_in(s.value, own)]
+        elif isinstance(s, ast.If):
+            out += [f"PCall {c}" for c in scalls_in(s.test, own)]
+            out.append(f"PIf ({sblock(s.body, own)}) ({sblock(s.orelse, own)})")
+        elif isinstance(s, ast.Return):
+            if s.value is not None:
+                out += [f"PCall {c}" for c in scalls_in(s.value, own)]
+            out.append("PRet")
+        elif isinstance(s, ast.Pass):
+            pass
+        else:
+            raise Unsupported(f"{where(s)}: statement {type(s).__name__} is outside the translatable subset")
+    if not out:
+        return "PSkip"
+    return "psq [" + "; ".join(out) + "]" if len(out) > 1 else out[0]
+
+
+def build_calls(repo: Path | None = None) -> list[str]:
+    """Coq definitions of sk_start / sk_stop / sk_clear (a comment instead of a definition for a
+    method outside the subset)"""
+    repo = Path(repo or core.REPO)
+    tree = ast.parse((repo / REL).read_text())
+    cls = [n for n in tree.body if isinstance(n, ast.ClassDef) and n.name == "UrwidImageScreen"]
+    lines = []
+    for meth, name in (("_start", "sk_start"), ("_stop", "sk_stop"), ("clear", "sk_clear")):
+        try:
+            if len(cls) != 1:
+                raise Unsupported(f"{REL}: class UrwidImageScreen not found exactly once")
+            fns = [n for n in cls[0].body if isinstance(n, (ast.FunctionDef, ast.AsyncFunctionDef)) and n.name == meth]
+            if len(fns) != 1 or not isinstance(fns[0], ast.FunctionDef):
+                raise Unsupported(f"{REL}: UrwidImageScreen.{meth} not found exactly once as a plain method")
+            fn = fns[0]
+            if fn.decorator_list:
+                raise Unsupported(f"{where(fn)}: {meth} is decorated")
+            # clear_images must be the class' own method, not shadowed
+            for n in ast.walk(cls[0]):
+                if isinstance(n, ast.Attribute) and n.attr == "clear_images" and isinstance(n.ctx, (ast.Store, ast.Del)):
+                    raise Unsupported(f"{where(n)}: clear_images is rebound")
+            body = sblock(fn.body, meth)
+            lines += [f"(** UrwidImageScreen.{meth} ({REL}:{fn.lineno}) *)", f"Definition {name} : sprog :=\n  {body}.", ""]
+        except Unsupported as e:
+            print(f"tx_screen: {meth}: source outside the translatable subset: {e}", file=sys.stderr)
+            lines += [f"(* no [{name}]: tx_screen.py refused the current source: " + str(e).replace("*)", "* )") + " *)", ""]
+    return lines
+
+
 def build(repo: Path | None = None) -> str:
     repo = Path(repo or core.REPO)
     src = (repo / REL).read_text()
@@ -165,7 +286,7 @@ def build(repo: Path | None = None) -> str:
         "    [Write WHide] = self.write(BEGIN_SYNCED_UPDATE), [Write WShow] = self.write(END_SYNCED_UPDATE). *)",
         "From Coq Require Import List Bool.",
         "Import ListNotations.",
-        "From TI Require Import lib.Eff.",
+        "From TI Require Import lib.Eff model.ScreenCalls.",
         "",
         f"Definition sk_draw_screen : prog :=\n  {body}.",
         "",
@@ -174,13 +295,19 @@ def build(repo: Path | None = None) -> str:
 
 def main():
     try:
+        calls = "\n".join(build_calls())
+    except (OSError, SyntaxError) as e:
+        calls = "(* no [sk_start] [sk_stop] [sk_clear]: " + str(e).replace("*)", "* )") + " *)\n"
+    try:
         text = build()
     except (Unsupported, OSError, SyntaxError) as e:
         print(f"tx_screen: source outside the translatable subset: {e}", file=sys.stderr)
         core.write_if_changed(OUT, "(* tx_screen.py refused the current source: " + str(e).replace("*)", "* )") + " *)\n"
-                              "From TI Require Import lib.Eff.\n(* no [sk_draw_screen]: proofs/ScreenSync.v does not build *)\n")
+                              "From Coq Require Import List Bool.\nImport ListNotations.\n"
+                              "From TI Require Import lib.Eff model.ScreenCalls.\n(* no [sk_draw_screen]: proofs/ScreenSync.v does not build *)\n\n"
+                              + calls)
         sys.exit(0)
-    core.write_if_changed(OUT, text)
+    core.write_if_changed(OUT, text + "\n" + calls)
 
 
 if __name__ == "__main__":
